@@ -419,7 +419,19 @@ class Version(object):
         return self.__cmp__(other) == 0
 
     def __hash__(self):
-        return hash(self._unparsed)
+        # versions that compare equal can be spelled differently ("1.0" and "1",
+        # "1-ga" and "1"): hash the parsed items without the empty trailing
+        # items that the comparison ignores rather than the original text
+        return hash(self._canonical(self._parsed))
+
+    @classmethod
+    def _canonical(cls, item):
+        if not isinstance(item, tuple):
+            return item
+        items = [cls._canonical(i) for i in item]
+        while items and items[-1] in (0, "", ()):
+            items.pop()
+        return tuple(items)
 
     def __lt__(self, other):
         return self.__cmp__(other) < 0
